@@ -102,6 +102,11 @@ def run(tier, seed, which="C13"):
         prot = [x + "LKEF" for x in gen.family(rng, 4, 30, gen.AA, sub=0.2, indel=0.02)]
         nname = ["".join(rng.choice("GATTACACGTN_") for _ in range(L)) + "_%d" % j for j in range(4)]
         cases.append(dict(id="lname_prot%d" % i, grp="lname_prot%d" % i, seqs=prot, names=nname, mode="fasta", vec=dict(kind="protein, names of %d nucleotide letters" % L)))
+    # long records whose composition changes along the record: the first thousand residues look like the other kind
+    for i, (head, tail) in enumerate([(1000, 1500), (1100, 900)] if tier == "quick" else [(600, 900), (1000, 1500), (1100, 900), (2100, 2500), (4100, 5000)]):
+        # protein: nucleotide-looking start, then clearly protein (premise b: more than a quarter protein-only letters overall)
+        prot = [gen.rand_seq(rng, "ACGT", head) + gen.rand_seq(rng, "EFILPQ" * 3 + "DHKMRSVWY", tail) for _ in range(3)]
+        cases.append(dict(id="shift_prot%d" % i, grp="shift_prot%d" % i, seqs=prot, names=gen.names(rng, 3), mode="fasta", vec=dict(kind="protein, first %d residues ACGT" % head)))
     # more than 512 records: the composition of the file as a whole decides, wherever the nucleotide-looking records sit
     prot = [gen.rand_seq(rng, gen.AA, 25) for _ in range(515)]
     pep = [gen.rand_seq(rng, "ACGTN", 25) for _ in range(40)]
